@@ -41,10 +41,14 @@ SORTS = ["slice::<impl [T]>::sort", "slice::<impl [T]>::sort_unstable", "slice::
          "slice::<impl [T]>::sort_by_key", "slice::<impl [T]>::sort_unstable_by", "slice::<impl [T]>::sort_unstable_by_key"]
 VEC_SHRINK = ["Vec::retain", "Vec::truncate", "Vec::pop", "Vec::remove", "Vec::swap_remove", "Vec::drain", "Vec::clear",
               "Vec::dedup", "Vec::dedup_by", "Vec::dedup_by_key", "Vec::split_off", "Vec::retain_mut"]
-MAP_MUT = ["HashMap::insert", "HashMap::entry", "HashMap::remove", "HashMap::remove_entry", "HashMap::clear",
-           "HashMap::retain", "HashMap::drain", "HashMap::extend", "HashMap::get_mut", "HashMap::values_mut",
-           "HashMap::iter_mut", "HashMap::try_insert", "HashMap::extract_if", "HashMap::get_many_mut",
-           "HashMap::get_disjoint_mut", "Extend>::extend", "mem::take", "mem::replace", "mem::swap"]
+def mp(*methods):
+    """the method(s) on either std map type (the generator has switched containers before)"""
+    return [f"{m}::{x}" for m in ("HashMap", "BTreeMap") for x in methods]
+
+
+MAP_MUT = mp("insert", "entry", "remove", "remove_entry", "clear", "retain", "drain", "extend", "get_mut", "values_mut",
+             "iter_mut", "try_insert", "extract_if", "get_many_mut", "get_disjoint_mut", "pop_first", "pop_last", "append",
+             "split_off", "first_entry", "last_entry") + ["Extend>::extend", "mem::take", "mem::replace", "mem::swap"]
 
 
 # ------------------------------------------------------------------------------------------------ MIR helpers
@@ -198,7 +202,10 @@ def run(rep, tier):
         "that make is_required() true. R30.6 (MIR): moon.pkg.json is rendered after the package's generator finished "
         "and on every returning path of the import callbacks. R30.7 (syn + bundled files): no generator source "
         "spells a `@pkg.` qualifier literally; the bundled async-core sources use only aliases their bundled "
-        "moon.pkg.json declares. NOT decided: MoonBit's package resolution itself, "
+        "moon.pkg.json declares. R30.8 (MIR+syn): the glue strings recorded for the link package (MoonBit.export, "
+        "written to <gen_dir>/ffi.mbt) contain only qualifiers computed relative to gen_dir, and every such qualifier "
+        "goes there. NOT decided: that text qualified relative to an interface package lands in that package's own files "
+        "(InterfaceGenerator.src/ffi are plain strings), MoonBit's package resolution itself, "
         "that interfaces are visited in dependency order (wit-parser), packages the user keeps under --ignore-stub, "
         "validity of an alias as a MoonBit identifier, uniqueness of Ns::tmp results (C26).",
         trusted_base=["rustc MIR of wit-bindgen-moonbit", "syn parse of crates/moonbit/src/{lib,pkg,async_support}.rs",
@@ -284,7 +291,7 @@ def run(rep, tier):
         imp_calls = []
         for x in od:
             e = f.origin(x.args[0])
-            if e.get("kind") == "call" and e["call"].matches("HashMap::entry") and \
+            if e.get("kind") == "call" and e["call"].matches(mp("entry")) and \
                     ".package_import" in fields_of(f.origin(e["call"].args[0])):
                 imp_calls.append((x, e["call"]))
         rep.ob("R30.1", "one import table is selected: package_import.entry(..).or_default()", len(imp_calls) == 1,
@@ -301,7 +308,7 @@ def run(rep, tier):
         gets = []
         for b, m, o in discr_switches(f, ty_sub="Option"):
             src = o.get("of", {})
-            if src.get("kind") == "call" and src["call"].matches(["HashMap::get", "HashMap::get_key_value"]):
+            if src.get("kind") == "call" and src["call"].matches(mp("get", "get_key_value")):
                 gets.append((b, m, src["call"]))
         rep.floor("R30.1", "look-ups of the import table whose result is branched on", len(gets), 1)
         if len(gets) != 1:
@@ -350,24 +357,23 @@ def run(rep, tier):
             rep.ob("R30.1", f"packages.{nm}: only when name != this (a package never imports itself)",
                    guard is not None and x.bb in f.edge_region(*guard), "", f.loc(x.bb))
             rep.ob("R30.1", f"packages.{nm}: not in a loop", not f.in_cycle(x.bb), "", f.loc(x.bb))
-            if x.matches(["HashMap::entry", "HashMap::insert", "HashMap::try_insert"]):
+            if x.matches(mp("entry", "insert", "try_insert")):
                 kk = peel(f, f.origin(x.args[1]))
                 rep.ob("R30.1", f"packages.{nm}: the key inserted is `name` (the key that was looked up)",
                        kk.get("kind") == "arg" and kk.get("n") == name_n and not fields_of(kk), describe(f, kk), f.loc(x.bb))
         # the value inserted
         vals = []
-        for x in f.calls(["Entry::or_insert", "HashMap::insert", "Entry::or_insert_with", "Entry::insert_entry",
-                          "VacantEntry::insert", "HashMap::try_insert"]):
+        for x in f.calls(["Entry::or_insert", "Entry::or_insert_with", "Entry::insert_entry", "VacantEntry::insert"] + mp("insert", "try_insert")):
             if x is sel or x.bb == sel.bb:
                 continue
-            if x.matches("HashMap::insert") or x.matches("HashMap::try_insert"):
+            if x.matches(mp("insert", "try_insert")):
                 l, fld = local_of_ref(f, x.args[0])
                 if fld != "packages":
                     continue
                 vals.append((x, x.args[2]))
             else:
                 e = f.origin(x.args[0])
-                if e.get("kind") == "call" and e["call"].matches("HashMap::entry") and \
+                if e.get("kind") == "call" and e["call"].matches(mp("entry")) and \
                         local_of_ref(f, e["call"].args[0])[1] == "packages":
                     vals.append((x, x.args[1]))
         rep.floor("R30.1", "alias insertion sites", len(vals), 1)
@@ -422,13 +428,12 @@ def run(rep, tier):
         imp_n = imports_n[0]
         src_n = [i for i in range(1, f.argc + 1) if mir.base_type(f.locals[i]) == "Source"]
         its = []
-        for x in f.calls(["HashMap::iter", "HashMap::keys", "HashMap::values", "HashMap::into_iter", "IntoIterator>::into_iter",
-                          "HashMap::iter_mut"]):
+        for x in f.calls(mp("iter", "keys", "values", "into_iter", "iter_mut", "into_keys", "into_values") + ["IntoIterator>::into_iter"]):
             o = f.origin(x.args[0])
             if ".packages" in fields_of(o):
                 its.append((x, o))
         rep.ob("R30.2", "imports.packages is iterated exactly once, as (path, alias) pairs",
-               len(its) == 1 and its[0][0].matches(["HashMap::iter", "IntoIterator>::into_iter", "HashMap::into_iter"]),
+               len(its) == 1 and its[0][0].matches(mp("iter", "into_iter") + ["IntoIterator>::into_iter"]),
                f"{[mir.norm(x.callee) for x, _ in its]}", f.loc())
         rep.floor("R30.2", "iterations of imports.packages", len(its), 1)
         if len(its) != 1:
@@ -552,8 +557,12 @@ def run(rep, tier):
                    t == '\x01"path":"{}/{}","alias":"{}"\x02', f"{x.template!r}", sf.loc(x.node))
             hs = x.hole_exprs()
             if len(hs) == 3 and hs[1][2] is not None:
-                rep.ob("R30.2", "entry template: the path hole is the '.' -> '/' replace", is_dot_slash_replace(hs[1][2]),
-                       render(hs[1][2]), sf.loc(x.node))
+                e1 = hs[1][2]
+                if e1.get("k") == "path":        # a local: look at what it was bound to
+                    inits = [init for nm_, init, st in synq.bindings(sf.body) if nm_ == e1["path"] and init is not None]
+                    e1 = inits[-1] if len(inits) == 1 else e1
+                rep.ob("R30.2", "entry template: the path hole is the '.' -> '/' replace", is_dot_slash_replace(e1),
+                       render(e1), sf.loc(x.node))
         # the import section header is emitted on the same edge as the list
         hdr = [s for s in synq.strings(sf.body) if '"import"' in s["v"]]
         rep.ob("R30.2", 'the list is emitted under the "import" key', len(hdr) == 1 and re.sub(r"\s+", "", hdr[0]["v"]) == ',"import":[', f"{[h['v'] for h in hdr]}", sf.loc())
@@ -565,7 +574,7 @@ def run(rep, tier):
                 sites += 1
                 o2 = h.origin(x.args[2])
                 owner = h.npath.split("::")[-1]
-                ok = o2.get("kind") == "call" and o2["call"].matches("HashMap::get") and \
+                ok = o2.get("kind") == "call" and o2["call"].matches(mp("get")) and \
                     ".package_import" in fields_of(h.origin(o2["call"].args[0]))
                 rep.ob("R30.2", f"{owner}: write_moon_pkg receives package_import.get(<package name>)", ok, describe(h, o2), h.loc(x.bb))
         rep.floor("R30.2", "write_moon_pkg call sites", sites, 5)
@@ -600,7 +609,7 @@ def run(rep, tier):
             rep.ob("R30.3", f"{fn_name}: one moon.pkg.json rendering", len(w) == 1, f"{len(w)}", f.loc())
             for x in w:
                 o = f.origin(x.args[2])
-                if o.get("kind") == "call" and o["call"].matches("HashMap::get"):
+                if o.get("kind") == "call" and o["call"].matches(mp("get")):
                     kid = root_id(f, f.origin(o["call"].args[1]))
                     rep.ob("R30.3", f"{fn_name}: moon.pkg.json lists the imports recorded under this package's name", kid == nid,
                            "imports are looked up under another key than the directory's name", f.loc(x.bb))
@@ -615,7 +624,7 @@ def run(rep, tier):
                     if nid[0] == "call" else []
                 rep.ob("R30.3", f"{fn_name}: the package name is made unique by MoonBit.interface_ns (distinct interfaces never "
                        "share a directory / moon.pkg.json)", len(tm) == 1, f"name is the {nid[1] if len(nid) > 1 else nid}", f.loc())
-                reg = [x for x in f.calls("HashMap::insert") if ("." + reg_map) in fields_of(f.origin(x.args[0]))]
+                reg = [x for x in f.calls(mp("insert")) if ("." + reg_map) in fields_of(f.origin(x.args[0]))]
                 rep.ob("R30.3", f"{fn_name}: the interface is registered once in {reg_map}", len(reg) == 1, f"{len(reg)}", f.loc())
                 for x in reg:
                     rep.ob("R30.3", f"{fn_name}: the name other packages will import is the package name", root_id(f, f.origin(x.args[2])) == nid,
@@ -661,14 +670,14 @@ def run(rep, tier):
             rep.floor("R30.3", f"{fn_name}: templated file paths", np, 3)
             rep.ob("R30.3", f"{fn_name}: the package's moon.pkg.json is among the files", "moon.pkg.json" in names, f"{sorted(names)}", sf.loc())
         # interface names: who may write the two registries
-        for mp, owner in (("import_interface_names", "import_interface"), ("export_interface_names", "export_interface")):
+        for regmap, owner in (("import_interface_names", "import_interface"), ("export_interface_names", "export_interface")):
             n = 0
             for h in c.fns.values():
                 for x in h.calls(MAP_MUT):
-                    if x.args and ("." + mp) in fields_of(h.origin(x.args[0])):
+                    if x.args and ("." + regmap) in fields_of(h.origin(x.args[0])):
                         n += 1
-                        rep.ob("R30.3", f"{mp} written in {h.npath.split('::')[-1]}", h.npath.endswith("::" + owner), "", h.loc(x.bb))
-            rep.floor("R30.3", f"writers of {mp}", n, 1)
+                        rep.ob("R30.3", f"{regmap} written in {h.npath.split('::')[-1]}", h.npath.endswith("::" + owner), "", h.loc(x.bb))
+            rep.floor("R30.3", f"writers of {regmap}", n, 1)
         # world package: qualifier() and the world callbacks agree on world_name
         wn_users = {}
         for h in c.fns.values():
@@ -756,7 +765,7 @@ def run(rep, tier):
                 return
             if k == "call":
                 cl = o["call"]
-                if cl.matches("HashMap::get") and set(fields_of(h.origin(cl.args[0]))) & {".import_interface_names", ".export_interface_names"}:
+                if cl.matches(mp("get")) and set(fields_of(h.origin(cl.args[0]))) & {".import_interface_names", ".export_interface_names"}:
                     terminal["registry"] = terminal.get("registry", 0) + 1
                     rep.ob("R30.4", f"{where}: `{role}` is a registered interface package name", True, "", h.loc(cl.bb))
                     return
@@ -1054,6 +1063,26 @@ def run(rep, tier):
                 for x in w:
                     rep.ob("R30.6", f"{fn_name}: moon.pkg.json is rendered on every returning path", f.all_paths_pass(0, f.returns(), [x.bb])
                            and not f.in_cycle(x.bb), "", f.loc(x.bb))
+            else:
+                # export packages: skipped only under --ignore-stub (the user keeps the file); by default it is rendered
+                for x in w:
+                    ge = [g_ for g_ in f.guard_edges(x.bb) if not f.in_cycle(g_[0])]      # loop exits are not skips
+                    good = []
+                    for sw, vals, o in ge:
+                        neg = False
+                        while o.get("kind") == "un" and o.get("op") == "Not":
+                            o = o["a"]
+                            neg = not neg
+                        flag_false = (is_true_edge(vals) and neg) or (vals == [0] and not neg)
+                        good.append(o.get("kind") == "arg" and fields_of(o)[-2:] == [".opts", ".ignore_stub"] and flag_false)
+                    rep.ob("R30.6", f"{fn_name}: moon.pkg.json is skipped only when opts.ignore_stub is set", bool(good) and all(good),
+                           f"{len(ge)} guarding tests, {sum(good)} of them `!ignore_stub`", f.loc(x.bb))
+                    tg = [f.switch_targets(sw) for sw, vals, o in ge]
+                    ent = None
+                    for (sw, vals, o), m in zip(ge, tg):
+                        ent = m["else"] if vals == ["else"] else m.get(vals[0])
+                    rep.ob("R30.6", f"{fn_name}: without --ignore-stub every returning path renders moon.pkg.json",
+                           ent is not None and f.all_paths_pass(ent, f.returns(), [x.bb]) and not f.in_cycle(x.bb), "", f.loc(x.bb))
             # the rendered buffer is the one pushed as moon.pkg.json: a push whose data derives from the buffer follows
             for x in w:
                 buf = peel(f, f.origin(x.args[1]))
@@ -1068,6 +1097,31 @@ def run(rep, tier):
         w = fin.calls("MoonBit::write_moon_pkg")
         rep.ob("R30.6", "finish: the link package's moon.pkg.json is rendered on every returning path, with link = true",
                len(w) == 1 and fin.all_paths_pass(0, fin.returns(), [w[0].bb]) and fin.origin(w[0].args[3]).get("v") == 1, "", fin.loc())
+        # the driver (core's provided WorldGenerator::generate) calls the callbacks in the order the above relies on
+        core = mir.load("ws", "wit_bindgen_core", "rlib")
+        gen = core.fn("WorldGenerator::generate")
+        rep.saw(gen)
+
+        def one(nm):
+            cs = gen.calls("WorldGenerator::" + nm)
+            if len(cs) != 1:
+                raise mir.AnchorMissing(f"call of {nm} in WorldGenerator::generate: {len(cs)}")
+            return cs[0]
+        fi, fin_ = one("finish_imports"), one("finish")
+        pre = one("preprocess")
+        for nm in ("import_interface", "import_types", "import_funcs"):
+            x = one(nm)
+            rep.ob("R30.6", f"generate: {nm} is never called after finish_imports (the world package's moon.pkg.json is final)",
+                   x.bb not in gen.reachable(fi.bb) or x.bb == fi.bb, "", gen.loc(x.bb))
+        for nm in ("import_interface", "import_types", "import_funcs", "finish_imports", "export_funcs", "export_interface"):
+            x = one(nm)
+            rep.ob("R30.6", f"generate: {nm} is never called after finish (the link package's moon.pkg.json is final)",
+                   x.bb not in gen.reachable(fin_.bb), "", gen.loc(x.bb))
+            rep.ob("R30.6", f"generate: preprocess precedes {nm}", gen.dominates(pre.bb, x.bb), "", gen.loc(x.bb))
+        rep.ob("R30.6", "generate: finish_imports is called on every path that goes on to the exports",
+               gen.all_paths_pass(0, [one("export_funcs").bb, one("export_interface").bb, fin_.bb], [fi.bb]) and not gen.in_cycle(fi.bb), "", gen.loc(fi.bb))
+        rep.ob("R30.6", "generate: every successful return passes finish", not gen.in_cycle(fin_.bb) and
+               all(fin_.bb in gen.dom[r] or not _ok_return(gen, r) for r in gen.returns()), "", gen.loc(fin_.bb))
     rep.guard("R30.6", "ordering", r6)
 
     # ================================================================================================ R30.7
@@ -1139,6 +1193,82 @@ def run(rep, tier):
                 ok = render(mcall["args"][1]).startswith(pk + ".")
         rep.ob("R30.7", "emit_runtime_files pushes the bundled moon.pkg.json as async-core's package file", ok, "", ef.loc())
     rep.guard("R30.7", "no reference bypasses the import table", r7)
+
+    # ================================================================================================ R30.8
+    def r8():
+        def this_is_gen(h, q):
+            o = peel(h, h.origin(q.args[1]))
+            return o.get("kind") == "arg" and fields_of(o)[-2:] == [".opts", ".gen_dir"]
+
+        def quals_in(h, fcall):
+            """qualify_package calls whose result is formatted by `fcall`"""
+            out = []
+            for a in fmt_display_args(h, {"kind": "call", "call": fcall}) or []:
+                o = peel(h, a)
+                if o.get("kind") == "call" and o["call"].matches("PkgResolver::qualify_package"):
+                    out.append(o["call"])
+            return out
+
+        nins = 0
+        used_q = set()
+        for h in c.fns.values():
+            for x in h.calls(mp("insert")):
+                if ".export" not in fields_of(h.origin(x.args[0])):
+                    continue
+                nins += 1
+                nm = h.npath.split("::")[-1]
+                v = h.origin(x.args[2])
+                fs = []
+                if v.get("kind") == "agg":
+                    for op in v["rv"].get("ops", []):
+                        o = peel(h, h.origin(op))
+                        if o.get("kind") == "call" and o["call"].matches("fmt::format"):
+                            fs.append(o["call"])
+                rep.ob("R30.8", f"{nm}: the glue recorded for the link package is one formatted string", len(fs) == 1, f"{len(fs)}", h.loc(x.bb))
+                for fc in fs:
+                    qs = quals_in(h, fc)
+                    rep.ob("R30.8", f"{nm}: link-package glue qualifies the callee's package", len(qs) >= 1, "no qualifier in the glue", h.loc(fc.bb))
+                    for q in qs:
+                        used_q.add((h.path, q.bb))
+                        rep.ob("R30.8", f"{nm}: qualifiers inside link-package glue are computed relative to gen_dir "
+                               "(the package whose ffi.mbt the glue is written to)", this_is_gen(h, q),
+                               "the reference is recorded in another package's import table than the one the text lands in", h.loc(q.bb))
+        rep.floor("R30.8", "insertions into MoonBit.export", nins, 4)
+        ngen = 0
+        for h in c.fns.values():
+            for q in h.calls("PkgResolver::qualify_package"):
+                if this_is_gen(h, q):
+                    ngen += 1
+                    rep.ob("R30.8", f"{h.npath.split('::')[-1]}: a qualifier computed relative to gen_dir is used in link-package glue only",
+                           (h.path, q.bb) in used_q, "its text goes somewhere else than MoonBit.export", h.loc(q.bb))
+        rep.floor("R30.8", "qualifiers computed relative to gen_dir", ngen, 4)
+        # finish writes the recorded glue into {gen_dir}/ffi.mbt
+        sf = synq.find_fn(LIB, "finish", self_ty="MoonBit", trait="WorldGenerator")
+        loops = [n for n in synq.walk(sf.body) if n.get("k") == "for" and unraw(render(n["iter"])).startswith("self.export.")]
+        rep.ob("R30.8", "finish: one loop over MoonBit.export", len(loops) == 1, f"{len(loops)}", sf.loc())
+        dests = set()
+        for lp in loops:
+            for x in synq.fmts(lp["body"]):
+                if x.dest is not None:
+                    dests.add(render(strip_ref(x.dest)))
+        ok = False
+        for mcall in synq.method_calls(sf.body, "push"):
+            a0 = strip_ref(mcall["args"][0]) if mcall["args"] else None
+            if isinstance(a0, dict) and a0.get("k") == "macro" and synq.short(a0["name"]) == "format":
+                fm = synq.Fmt(a0)
+                hs = fm.hole_exprs()
+                if re.sub(r"\{[^{}]*\}", "{}", fm.template or "") == "{}/ffi.mbt" and len(hs) == 1 and hs[0][2] is not None and \
+                        unraw(render(hs[0][2])).endswith("opts.gen_dir"):
+                    data = render(mcall["args"][1])
+                    ok = len(dests) == 1 and re.search(r"\b%s\b" % re.escape(next(iter(dests))), data) is not None
+        rep.ob("R30.8", "finish: the recorded glue is written to <gen_dir>/ffi.mbt", ok, f"buffers {sorted(dests)}", sf.loc())
+    rep.guard("R30.8", "link-package glue lands where its imports are recorded", r8)
+
+
+def _ok_return(f, r):
+    """does return block `r` possibly return Ok? (false when every path to it constructs Err / comes from a `?` early exit)"""
+    oks = [bb for bb, _, _, _ in f.aggregates("Result", "Ok")]
+    return any(r in f.reachable(bb) for bb in oks) or not oks
 
 
 ASYNC_TESTS = ["AsyncExportPlan::is_async", "AsyncImportPlan::is_async", "AsyncExportPlan::signature_is_async",
